@@ -274,3 +274,18 @@ def check_width_table(rep, model):
                 break
         rep.check(got == typ, "C14.d", "CodegenCtx._integer_containing", f"{'signed' if sg else 'unsigned'} size {w} -> {typ}",
                   f"{'signed' if sg else 'unsigned'} size {w} is declared as {got}, expected {typ}: assignments no longer convert to the declared width")
+
+
+def _shared(ctx, rep, tier):
+    from .shared import delegate
+    delegate(ctx, rep, tier, "C01", ("C01.k",), "C14.f", "expressions read the *current* values: assignments between statements keep their program order relative to the next statement's actions",
+             where="DFA.append_after")
+    delegate(ctx, rep, tier, "C05", ("C05.a",), "C14.g", "the optimiser merges transitions without reordering their assignments", where="DfaCompileCtx._optimize_shortcircuit_fallthroughs")
+
+
+_run0 = run
+
+
+def run(ctx, rep, tier):
+    _run0(ctx, rep, tier)
+    _shared(ctx, rep, tier)
